@@ -7,6 +7,7 @@ import (
 	"bytes"
 	"fmt"
 	"go/ast"
+	"go/constant"
 	"go/printer"
 	"go/token"
 	"go/types"
@@ -17,7 +18,8 @@ import (
 // shared by the body of a function and the bodies of its loops
 type shared struct {
 	tmp, loopN int
-	defs       []string // finished loop definitions, innermost first
+	defs       []string            // finished loop definitions, innermost first
+	clock      map[*types.Var]bool // local variables that hold a clock reading (usable only as a generator's seed)
 }
 
 type ctx struct {
@@ -27,6 +29,8 @@ type ctx struct {
 	sh   *shared
 	loop *loopCtx // innermost enclosing loop, nil in the function body proper
 	cur  ast.Stmt // the (innermost simple) statement being translated
+	cond bool     // inside the right operand of && / || (evaluated conditionally: no stores possible)
+	brw  bool     // the value being translated initialises a NEW local variable (a read-only borrow of a record)
 }
 
 type loopCtx struct {
@@ -85,6 +89,31 @@ func intLit(s string) string {
 	return s
 }
 
+// constTerm: a constant of type int, bool, uint / uint64, byte or string as a Lean literal (of the type go/types gave it:
+// an untyped constant has already been converted to the type its context requires).
+func constTerm(tv types.TypeAndValue) (string, bool) {
+	if tv.Value == nil || tv.Type == nil {
+		return "", false
+	}
+	switch {
+	case isInt(tv.Type) && tv.Value.Kind() == constant.Int:
+		return intLit(tv.Value.ExactString()), true
+	case isBool(tv.Type) && tv.Value.Kind() == constant.Bool:
+		return tv.Value.String(), true
+	case isU64(tv.Type) && tv.Value.Kind() == constant.Int:
+		return "(" + tv.Value.ExactString() + " : UInt64)", true
+	case isU8(tv.Type) && tv.Value.Kind() == constant.Int:
+		return "(" + tv.Value.ExactString() + " : UInt8)", true
+	case isString(tv.Type) && tv.Value.Kind() == constant.String:
+		var bs []string
+		for _, b := range []byte(constant.StringVal(tv.Value)) {
+			bs = append(bs, fmt.Sprint(b))
+		}
+		return "([" + strings.Join(bs, ", ") + "] : Go.Str)", true
+	}
+	return "", false
+}
+
 // expr returns a PURE Lean term for e; whatever can panic has been bound by lines emitted before.
 func (c *ctx) expr(e ast.Expr) string {
 	tv := c.t.info.Types[e]
@@ -92,17 +121,14 @@ func (c *ctx) expr(e ast.Expr) string {
 	case *ast.ParenExpr:
 		return c.expr(x.X)
 	case *ast.BasicLit:
-		if x.Kind == token.INT && tv.Value != nil && isInt(tv.Type) {
-			return intLit(tv.Value.ExactString())
+		if s, ok := constTerm(tv); ok {
+			return s
 		}
 		c.fail(e, "literal %s", x.Value)
 	case *ast.Ident:
 		if tv.Value != nil { // named constant, true, false
-			switch {
-			case isInt(tv.Type):
-				return intLit(tv.Value.ExactString())
-			case isBool(tv.Type):
-				return tv.Value.String()
+			if s, ok := constTerm(tv); ok {
+				return s
 			}
 			c.fail(e, "constant %s of type %s", x.Name, tv.Type)
 		}
@@ -119,13 +145,23 @@ func (c *ctx) expr(e ast.Expr) string {
 		if v.Parent() == c.t.pkg.Scope() {
 			c.fail(e, "package-level variable %s", x.Name)
 		}
+		if c.sh.clock[v] {
+			c.fail(e, "clock reading %s used other than as the seed of rand.NewSource", x.Name)
+		}
 		c.t.ident(x) // refuses names that clash with the translator's own
 		return varName(v)
 	case *ast.UnaryExpr:
 		switch x.Op {
 		case token.SUB:
-			if isInt(tv.Type) {
+			if isInt(tv.Type) || isUnsigned(tv.Type) { // (unsigned: wraps, as in Go)
 				return "(-" + c.expr(x.X) + ")"
+			}
+		case token.XOR: // ^x
+			if isUnsigned(tv.Type) {
+				return "(~~~" + c.expr(x.X) + ")"
+			}
+			if isInt(tv.Type) {
+				return "(-" + c.expr(x.X) + " - 1)"
 			}
 		case token.NOT:
 			return "(!" + c.expr(x.X) + ")"
@@ -156,10 +192,14 @@ func (c *ctx) expr(e ast.Expr) string {
 		}
 		return paren(c.expr(x.X)) + "." + c.t.ident(x.Sel)
 	case *ast.IndexExpr:
-		if !isSlice(c.typeOf(x.X)) {
+		if isString(c.typeOf(x.X)) { // s[i]: a byte
+			s, i := c.expr(x.X), c.indexTerm(x.Index)
+			return c.hoist("Go.strIdx %s %s", paren(s), paren(i))
+		}
+		if !isSlice(c.typeOf(x.X)) && !isArray(c.typeOf(x.X)) {
 			c.fail(e, "index into %s", c.typeOf(x.X))
 		}
-		s, i := c.expr(x.X), c.expr(x.Index)
+		s, i := c.expr(x.X), c.indexTerm(x.Index)
 		return c.hoist("Go.idx %s %s", paren(s), paren(i))
 	case *ast.CallExpr:
 		return c.callExpr(x)
@@ -170,11 +210,29 @@ func (c *ctx) expr(e ast.Expr) string {
 	return ""
 }
 
+// indexTerm: an index operand as an Int (an index of unsigned type cannot be negative: its value as a natural number).
+func (c *ctx) indexTerm(e ast.Expr) string {
+	ty := c.typeOf(e)
+	switch {
+	case isInt(ty):
+		return c.expr(e)
+	case isUnsigned(ty):
+		return "(" + paren(c.expr(e)) + ".toNat : Int)"
+	}
+	c.fail(e, "index of type %s", ty)
+	return ""
+}
+
 // valueAs: like value, for a place of type want — so that an untyped `nil` becomes that type's nil.
 func (c *ctx) valueAs(e ast.Expr, moved bool, want types.Type) string {
 	if tv := c.t.info.Types[e]; tv.IsNil() {
 		if r, isPtr := c.t.record(want); r != nil && isPtr {
 			return "none"
+		}
+		if isSlice(want) {
+			// a nil slice: length 0, append works — indistinguishable from an empty one, since comparing a slice with
+			// nil is outside the subset
+			return "(#[] : " + c.t.leanType(want, e) + ")"
 		}
 		c.fail(e, "nil of type %s", want)
 	}
@@ -211,7 +269,9 @@ func (c *ctx) binary(x *ast.BinaryExpr) string {
 	case token.LAND, token.LOR:
 		l := c.expr(x.X)
 		rw := &writer{ind: c.w.ind + 2}
-		r := c.sub(rw).expr(x.Y)
+		rc := c.sub(rw)
+		rc.cond = true
+		r := rc.expr(x.Y)
 		op := map[token.Token]string{token.LAND: "&&", token.LOR: "||"}[x.Op]
 		if len(rw.lines) == 0 {
 			return "(" + l + " " + op + " " + r + ")"
@@ -236,29 +296,109 @@ func (c *ctx) binary(x *ast.BinaryExpr) string {
 			}
 		}
 	}
-	if !(isInt(lt) && isInt(rt)) && !(isBool(lt) && isBool(rt) && (x.Op == token.EQL || x.Op == token.NEQ)) {
+	if x.Op == token.SHL || x.Op == token.SHR {
+		return c.shift(x)
+	}
+	kind := ""
+	switch {
+	case isInt(lt) && isInt(rt):
+		kind = "int"
+	case isU64(lt) && isU64(rt), isU8(lt) && isU8(rt):
+		kind = "uns"
+	case isBool(lt) && isBool(rt) && (x.Op == token.EQL || x.Op == token.NEQ):
+		kind = "bool"
+	case isString(lt) && isString(rt), isOrderedParam(lt) && types.Identical(lt, rt):
+		kind = "ord"
+	default:
 		c.fail(x, "operator %s on %s and %s", x.Op, lt, rt)
 	}
 	l, r := c.expr(x.X), c.expr(x.Y)
+	if kind == "ord" { // Go's native order of strings and of a type parameter constrained by Ordered (no floats: see Go.Ordered)
+		switch x.Op {
+		case token.LSS:
+			return "(Go.Ordered.lt " + paren(l) + " " + paren(r) + ")"
+		case token.GTR:
+			return "(Go.Ordered.lt " + paren(r) + " " + paren(l) + ")"
+		case token.LEQ:
+			return "(!(Go.Ordered.lt " + paren(r) + " " + paren(l) + "))"
+		case token.GEQ:
+			return "(!(Go.Ordered.lt " + paren(l) + " " + paren(r) + "))"
+		case token.EQL, token.NEQ:
+			if isString(lt) {
+				return "(" + l + map[token.Token]string{token.EQL: " == ", token.NEQ: " != "}[x.Op] + r + ")"
+			}
+		}
+		c.fail(x, "operator %s on %s", x.Op, lt)
+	}
 	switch x.Op {
-	case token.ADD, token.SUB, token.MUL:
+	case token.ADD, token.SUB, token.MUL: // (unsigned: Lean's UInt arithmetic wraps around, as Go's does)
 		return "(" + l + " " + x.Op.String() + " " + r + ")"
 	case token.QUO, token.REM:
+		if kind == "uns" {
+			if c.t.nonZeroConst(x.Y) {
+				return "(" + l + " " + x.Op.String() + " " + r + ")"
+			}
+			if !isU64(lt) {
+				c.fail(x, "division of %s by a divisor that is not a non-zero constant", lt)
+			}
+			return c.hoist("Go.%sU64 %s %s", map[token.Token]string{token.QUO: "div", token.REM: "mod"}[x.Op], paren(l), paren(r))
+		}
 		name := map[token.Token]string{token.QUO: "div", token.REM: "mod"}[x.Op]
 		if c.t.nonZeroConst(x.Y) {
 			return "(Int.t" + name + " " + paren(l) + " " + paren(r) + ")"
 		}
 		return c.hoist("Go.%s %s %s", name, paren(l), paren(r))
+	case token.AND, token.OR, token.XOR:
+		if kind == "uns" {
+			return "(" + l + " " + map[token.Token]string{token.AND: "&&&", token.OR: "|||", token.XOR: "^^^"}[x.Op] + " " + r + ")"
+		}
+		if kind == "int" {
+			return "(Go." + map[token.Token]string{token.AND: "andInt", token.OR: "orInt", token.XOR: "xorInt"}[x.Op] + " " + paren(l) + " " + paren(r) + ")"
+		}
+	case token.AND_NOT:
+		if kind == "uns" {
+			return "(" + l + " &&& ~~~" + paren(r) + ")"
+		}
 	case token.LSS, token.LEQ, token.GTR, token.GEQ:
-		op := map[token.Token]string{token.LSS: "<", token.LEQ: "≤", token.GTR: ">", token.GEQ: "≥"}[x.Op]
-		return "decide (" + l + " " + op + " " + r + ")"
+		if kind != "bool" {
+			op := map[token.Token]string{token.LSS: "<", token.LEQ: "≤", token.GTR: ">", token.GEQ: "≥"}[x.Op]
+			return "decide (" + l + " " + op + " " + r + ")"
+		}
 	case token.EQL:
 		return "(" + l + " == " + r + ")"
 	case token.NEQ:
 		return "(" + l + " != " + r + ")"
 	}
-	c.fail(x, "operator %s", x.Op)
+	c.fail(x, "operator %s on %s and %s", x.Op, lt, rt)
 	return ""
+}
+
+// shift: `v << s`, `v >> s` for v of type int or uint / uint64.  A constant count gives a pure term; any other count
+// goes through Go.shr… / Go.shl…, which panic for a negative count (a count of unsigned type never is).
+func (c *ctx) shift(x *ast.BinaryExpr) string {
+	lt, ct := c.typeOf(x.X), c.typeOf(x.Y)
+	if !(isInt(lt) || isU64(lt)) || !(isInt(ct) || isUnsigned(ct)) {
+		c.fail(x, "shift of %s by %s", lt, ct)
+	}
+	l := c.expr(x.X)
+	right := x.Op == token.SHR
+	if cv := c.t.info.Types[x.Y].Value; cv != nil && cv.Kind() == constant.Int {
+		k, ok := constant.Int64Val(cv)
+		if !ok || k < 0 {
+			c.fail(x, "shift by the constant %s", cv)
+		}
+		switch {
+		case isInt(lt):
+			return fmt.Sprintf("(%s %s (%d : Nat))", paren(l), map[bool]string{true: ">>>", false: "<<<"}[right], k)
+		case k >= 64:
+			return "(0 : UInt64)"
+		default:
+			return fmt.Sprintf("(%s %s (%d : UInt64))", paren(l), map[bool]string{true: ">>>", false: "<<<"}[right], k)
+		}
+	}
+	s := c.indexTerm(x.Y) // the count as an Int
+	name := map[bool]string{true: "shr", false: "shl"}[right] + map[bool]string{true: "Int", false: "U64"}[isInt(lt)]
+	return c.hoist("Go.%s %s %s", name, paren(l), paren(s))
 }
 
 func (c *ctx) composite(cl *ast.CompositeLit) string {
@@ -272,6 +412,19 @@ func (c *ctx) composite(cl *ast.CompositeLit) string {
 			es = append(es, c.expr(el))
 		}
 		return "(#[" + strings.Join(es, ", ") + "] : " + c.t.leanType(types.NewSlice(sl.Elem()), cl) + ")"
+	}
+	if ar, ok := ty.Underlying().(*types.Array); ok { // [N]T{…}: the listed elements, then zero values up to N
+		var es []string
+		for _, el := range cl.Elts {
+			if _, keyed := el.(*ast.KeyValueExpr); keyed {
+				c.fail(el, "keyed array literal")
+			}
+			es = append(es, c.value(el, false))
+		}
+		for int64(len(es)) < ar.Len() {
+			es = append(es, c.t.zero(ar.Elem(), cl))
+		}
+		return "(#[" + strings.Join(es, ", ") + "] : " + c.t.leanType(ty, cl) + ")"
 	}
 	n := c.t.ownStruct(ty)
 	if r, isPtr := c.t.record(ty); r != nil && !isPtr {
@@ -312,11 +465,35 @@ func (c *ctx) composite(cl *ast.CompositeLit) string {
 // AND the source is a local variable of the function, which dies at the return.
 func (c *ctx) value(e ast.Expr, moved bool) string {
 	ty := c.typeOf(e)
-	if isSlice(ty) || c.t.ownStruct(ty) != nil {
+	if c.t.mentionsMutRec(ty) && !c.t.info.Types[e].IsNil() {
+		// a MUTABLE record has exactly one owner — the slot its fresh literal was stored into.  Besides nil, only
+		// fresh values may be stored; a slot may be read into a NEW local variable (a read-only borrow) in a
+		// function during which nothing stores through such a pointer.
+		switch x := ast.Unparen(e).(type) {
+		case *ast.UnaryExpr:
+			if _, isLit := ast.Unparen(x.X).(*ast.CompositeLit); !(x.Op == token.AND && isLit) {
+				c.fail(e, "a pointer to a mutable record that is not a fresh literal")
+			}
+		case *ast.CompositeLit:
+		case *ast.CallExpr:
+			if c.builtin(x.Fun) != "make" && c.t.callee(x) == nil { // (what a translated function returns is fresh or moved)
+				c.fail(e, "a value containing pointers to mutable records is copied (only make, nil, fresh literals and results of translated functions are stored)")
+			}
+		default:
+			_, isSlot := x.(*ast.IndexExpr)
+			if r, isPtr := c.t.record(ty); !(c.brw && isSlot && r != nil && isPtr) {
+				c.fail(e, "a pointer to a mutable record is stored a second time (its slot owns it)")
+			}
+			if c.f.storesRec || c.loop != nil {
+				c.fail(e, "a pointer to a mutable record is read into a variable in a function that (directly or in a callee) assigns through such pointers, or inside a loop")
+			}
+		}
+	}
+	if isSlice(ty) || c.t.ownStruct(ty) != nil || isRand(ty) {
 		switch x := ast.Unparen(e).(type) {
 		case *ast.Ident:
 			if v := c.t.varOf(x); v != nil && !(moved && !c.isParam(v)) && !c.deadAfter(v) {
-				c.fail(e, "aliasing: the slice or struct %s is stored a second time", x.Name)
+				c.fail(e, "aliasing: the slice, struct or generator %s is stored a second time", x.Name)
 			}
 		case *ast.SelectorExpr, *ast.SliceExpr, *ast.IndexExpr, *ast.StarExpr:
 			c.fail(e, "aliasing: an existing slice or struct is stored a second time")
@@ -343,6 +520,9 @@ func (c *ctx) deadAfter(v *types.Var) bool {
 
 // sliceValue: a slice expression s[lo:hi] (or a plain slice) used as the SOURCE of copy / append.
 func (c *ctx) sliceValue(e ast.Expr) string {
+	if c.t.mentionsMutRec(c.typeOf(e)) {
+		c.fail(e, "copy / append of a slice of pointers to mutable records (two owners)")
+	}
 	x, ok := ast.Unparen(e).(*ast.SliceExpr)
 	if !ok {
 		return c.expr(e)
@@ -368,6 +548,11 @@ func (c *ctx) callTerm(call *ast.CallExpr, g *fn) string {
 	if g.fuel {
 		parts = append(parts, "fuel")
 	}
+	if g == c.f && c.loop != nil {
+		// a recursive call inside a loop: the loop is a separate definition that precedes the function, so it receives
+		// the function (already applied to its type arguments and the remaining fuel) as its parameter rec_
+		parts = []string{"rec_"}
+	}
 	if g.recv != nil {
 		sel, ok := ast.Unparen(call.Fun).(*ast.SelectorExpr)
 		if !ok {
@@ -388,7 +573,10 @@ func (c *ctx) callTerm(call *ast.CallExpr, g *fn) string {
 		}
 	}
 	for i, a := range call.Args {
-		if r, ok := c.t.root(a); ok && isSlice(c.typeOf(a)) {
+		if i >= len(g.params) {
+			break // further arguments of a variadic call: elements, not slices the callee could modify
+		}
+		if r, ok := c.t.root(a); ok && (isSlice(c.typeOf(a)) || isRand(c.typeOf(a))) {
 			if g.mutParam[g.params[i]] {
 				modified = append(modified, r)
 			} else {
@@ -399,12 +587,26 @@ func (c *ctx) callTerm(call *ast.CallExpr, g *fn) string {
 	for i, m := range modified {
 		for j, o := range append(append([]target{}, modified...), others...) {
 			if i != j && m.v == o.v && (m.field == o.field || m.field == "" || o.field == "") {
-				c.fail(call, "a slice that %s modifies is passed to it twice (aliasing)", g.name)
+				c.fail(call, "a slice or generator that %s modifies is passed to it twice (aliasing)", g.name)
 			}
 		}
 	}
-	for _, a := range call.Args {
+	nd := g.obj.Type().(*types.Signature).Params().Len()
+	for i, a := range call.Args {
+		if g.variadic && i >= nd-1 && !call.Ellipsis.IsValid() {
+			break
+		}
 		parts = append(parts, paren(c.expr(a)))
+	}
+	if g.variadic && !call.Ellipsis.IsValid() { // f(a, b, c): the variadic parameter receives a fresh slice of the further arguments
+		var es []string
+		for _, a := range call.Args[nd-1:] {
+			es = append(es, c.value(a, false))
+		}
+		parts = append(parts, "(#["+strings.Join(es, ", ")+"] : "+c.t.leanType(g.params[nd-1].Type(), call)+")")
+	}
+	if g.grand {
+		parts = append(parts, "grand_")
 	}
 	return strings.Join(parts, " ")
 }
@@ -451,16 +653,83 @@ func (c *ctx) typeArgs(call *ast.CallExpr, g *fn) []string {
 }
 
 func (c *ctx) callExpr(call *ast.CallExpr) string {
-	if tv := c.t.info.Types[call.Fun]; tv.IsType() { // conversion
-		if len(call.Args) == 1 && isInt(tv.Type) && isInt(c.typeOf(call.Args[0])) {
-			return c.expr(call.Args[0])
+	if tv := c.t.info.Types[call.Fun]; tv.IsType() { // conversion between integer types
+		if s, ok := constTerm(c.t.info.Types[call]); ok {
+			return s
+		}
+		if len(call.Args) == 1 {
+			to, from := tv.Type, c.typeOf(call.Args[0])
+			a := c.expr(call.Args[0])
+			switch {
+			case isInt(to) && isInt(from), isU64(to) && isU64(from), isU8(to) && isU8(from), isString(to) && isString(from):
+				return a
+			case isInt(to) && isU8(from):
+				return "(" + paren(a) + ".toNat : Int)"
+			case isInt(to) && isU64(from): // the same 64 bits read in two's complement
+				return "(" + paren(a) + ".toInt64.toInt)"
+			case isU64(to) && isInt(from): // (wraps modulo 2^64)
+				return "(UInt64.ofInt " + paren(a) + ")"
+			case isU64(to) && isU8(from):
+				return "(" + paren(a) + ".toUInt64)"
+			case isU8(to) && isInt(from):
+				return "(UInt8.ofInt " + paren(a) + ")"
+			case isU8(to) && isU64(from):
+				return "(" + paren(a) + ".toUInt8)"
+			}
 		}
 		c.fail(call, "conversion to %s", tv.Type)
+	}
+	if x := c.t.randMethod(call); x != nil { // r.Intn(n): panics for n <= 0; advances r
+		id, ok := ast.Unparen(x).(*ast.Ident)
+		v := (*types.Var)(nil)
+		if ok {
+			v = c.t.varOf(id)
+		}
+		if v == nil || v.IsField() || v.Parent() == c.t.pkg.Scope() {
+			c.fail(call, "Intn on something other than a local variable or parameter of type *rand.Rand")
+		}
+		if c.cond {
+			c.fail(call, "Intn in the right operand of && / || (a conditional store)")
+		}
+		c.t.ident(id)
+		n := c.expr(call.Args[0])
+		tmp := c.hoist("Go.Rand.intn %s %s", varName(v), paren(n))
+		c.w.emit("%s := %s.1", varName(v), tmp)
+		return tmp + ".2"
+	}
+	if c.t.isGlobalIntn(call) { // rand.Intn(n): a draw from the package-level generator, threaded as `grand_`
+		if c.cond {
+			c.fail(call, "Intn in the right operand of && / || (a conditional store)")
+		}
+		n := c.expr(call.Args[0])
+		tmp := c.hoist("Go.Rand.intn grand_ %s", paren(n))
+		c.w.emit("grand_ := %s.1", tmp)
+		return tmp + ".2"
+	}
+	if c.t.isRandNew(call) { // rand.New(rand.NewSource(<clock reading>)): a generator with an arbitrary stream
+		seed := ast.Unparen(ast.Unparen(call.Args[0]).(*ast.CallExpr).Args[0])
+		id, isId := seed.(*ast.Ident)
+		if !(c.t.isClockRead(seed) || (isId && c.t.varOf(id) != nil && c.sh.clock[c.t.varOf(id)])) {
+			c.fail(call, "rand.NewSource with a seed that is not a clock reading")
+		}
+		if c.loop != nil || c.cond {
+			c.fail(call, "random generator created inside a loop or conditionally")
+		}
+		if !c.f.rng {
+			panic("rand.New not seen by the analysis")
+		}
+		return "(Go.Rand.new rand_)"
 	}
 	switch c.builtin(call.Fun) {
 	case "len":
 		if isSlice(c.typeOf(call.Args[0])) {
 			return "(" + paren(c.expr(call.Args[0])) + ".size : Int)"
+		}
+		if isString(c.typeOf(call.Args[0])) {
+			return "(" + paren(c.expr(call.Args[0])) + ".length : Int)"
+		}
+		if a, ok := c.typeOf(call.Args[0]).Underlying().(*types.Array); ok {
+			return fmt.Sprint(a.Len())
 		}
 		c.fail(call, "len of %s", c.typeOf(call.Args[0]))
 	case "make":
@@ -469,6 +738,21 @@ func (c *ctx) callExpr(call *ast.CallExpr) string {
 			c.fail(call, "make other than make([]T, n)")
 		}
 		return c.hoist("Go.make %s %s", paren(c.t.zero(sl.Elem(), call)), paren(c.expr(call.Args[1])))
+	case "max", "min": // of integers: the larger / smaller operand (either one when they are equal)
+		ty := c.typeOf(call)
+		if !(isInt(ty) || isUnsigned(ty)) || len(call.Args) < 1 {
+			c.fail(call, "%s of %s", c.builtin(call.Fun), ty)
+		}
+		cur := c.expr(call.Args[0])
+		for _, a := range call.Args[1:] {
+			y := c.expr(a)
+			if c.builtin(call.Fun) == "max" {
+				cur = "(if " + paren(cur) + " < " + paren(y) + " then " + y + " else " + cur + ")"
+			} else {
+				cur = "(if " + paren(y) + " < " + paren(cur) + " then " + y + " else " + cur + ")"
+			}
+		}
+		return cur
 	case "append":
 		// append(literal, s...) : a FRESH slice made of a literal's elements followed by a copy of s
 		if lit, ok := ast.Unparen(call.Args[0]).(*ast.CompositeLit); ok && len(call.Args) == 2 && call.Ellipsis.IsValid() {
@@ -525,6 +809,7 @@ func (c *ctx) funcVar(e ast.Expr) (*types.Var, bool) {
 type step struct {
 	field string // ".f"
 	index string // "[i]" (a pure term, already evaluated)
+	deref bool   // the field is reached through a pointer to a record (an Option): nil panics
 }
 
 // place evaluates the operands of an assignable expression now and returns how to store into it later.
@@ -543,7 +828,7 @@ func (c *ctx) placeOf(l ast.Expr, define, elemsOnly bool) func(val string) {
 			name = varName(v)
 		}
 		if def, isNew := c.t.info.Defs[id].(*types.Var); define && isNew && def != nil {
-			if _, isPtr := types.Unalias(def.Type()).(*types.Pointer); isPtr && c.t.ownStruct(def.Type()) == nil && !c.isRecord(def.Type()) {
+			if _, isPtr := types.Unalias(def.Type()).(*types.Pointer); isPtr && c.t.ownStruct(def.Type()) == nil && !c.isRecord(def.Type()) && !isRand(def.Type()) {
 				c.fail(l, "local variable %s of pointer type %s", id.Name, def.Type())
 			}
 			ty := c.t.leanType(def.Type(), l)
@@ -563,6 +848,15 @@ func (c *ctx) placeOf(l ast.Expr, define, elemsOnly bool) func(val string) {
 	for {
 		switch x := e.(type) {
 		case *ast.SelectorExpr:
+			if r, isPtr := c.t.record(c.typeOf(x.X)); r != nil && isPtr {
+				// p.f = e through a pointer to a record: the record is owned by the slot p was read from (header)
+				if _, isSlot := ast.Unparen(x.X).(*ast.IndexExpr); !isSlot {
+					c.fail(l, "assignment through a pointer to a record that is not a slice element (`s[i].f = e`)")
+				}
+				steps = append([]step{{field: c.t.ident(x.Sel), deref: true}}, steps...)
+				e = ast.Unparen(x.X)
+				continue
+			}
 			if c.t.ownStruct(c.typeOf(x.X)) == nil {
 				c.fail(l, "assignment through %s", c.typeOf(x.X))
 			}
@@ -570,7 +864,7 @@ func (c *ctx) placeOf(l ast.Expr, define, elemsOnly bool) func(val string) {
 			e = ast.Unparen(x.X)
 			continue
 		case *ast.IndexExpr:
-			if !isSlice(c.typeOf(x.X)) {
+			if !isSlice(c.typeOf(x.X)) && !isArray(c.typeOf(x.X)) {
 				c.fail(l, "assignment to an element of %s", c.typeOf(x.X))
 			}
 			steps = append([]step{{index: ""}}, steps...)
@@ -607,7 +901,7 @@ func (c *ctx) placeOf(l ast.Expr, define, elemsOnly bool) func(val string) {
 	k := 0
 	for i := range steps {
 		if steps[i].index != "" {
-			steps[i].index = c.expr(idxExprs[k])
+			steps[i].index = c.indexTerm(idxExprs[k])
 			k++
 		}
 	}
@@ -622,6 +916,10 @@ func (c *ctx) store(base string, steps []step, val string) string {
 		return val
 	}
 	s := steps[0]
+	if s.deref {
+		cur := c.hoist("Go.deref %s", paren(base))
+		return "(some { " + cur + " with " + s.field + " := " + c.store(cur+"."+s.field, steps[1:], val) + " })"
+	}
 	if s.field != "" {
 		return "{ " + base + " with " + s.field + " := " + c.store(paren(base)+"."+s.field, steps[1:], val) + " }"
 	}
@@ -654,8 +952,28 @@ func (c *ctx) sameExpr(a, b ast.Expr) bool {
 	case *ast.SelectorExpr:
 		y, ok := ast.Unparen(b).(*ast.SelectorExpr)
 		return ok && x.Sel.Name == y.Sel.Name && c.sameExpr(x.X, y.X)
+	case *ast.IndexExpr: // s[i] and s[i] for the same variable i
+		y, ok := ast.Unparen(b).(*ast.IndexExpr)
+		if !ok || !c.sameExpr(x.X, y.X) {
+			return false
+		}
+		xi, ok1 := ast.Unparen(x.Index).(*ast.Ident)
+		yi, ok2 := ast.Unparen(y.Index).(*ast.Ident)
+		return ok1 && ok2 && c.t.varOf(xi) != nil && c.t.varOf(xi) == c.t.varOf(yi)
 	}
 	return false
+}
+
+// isPlusOne: e is `v + 1` for the variable v that f is.
+func (c *ctx) isPlusOne(e, f ast.Expr) bool {
+	b, ok := ast.Unparen(e).(*ast.BinaryExpr)
+	if !ok || b.Op != token.ADD {
+		return false
+	}
+	one := c.t.info.Types[b.Y]
+	x, okx := ast.Unparen(b.X).(*ast.Ident)
+	y, oky := ast.Unparen(f).(*ast.Ident)
+	return okx && oky && c.t.varOf(x) != nil && c.t.varOf(x) == c.t.varOf(y) && one.Value != nil && one.Value.ExactString() == "1"
 }
 
 var assignOps = map[token.Token]token.Token{token.ADD_ASSIGN: token.ADD, token.SUB_ASSIGN: token.SUB,
@@ -670,6 +988,19 @@ func (c *ctx) assign(s *ast.AssignStmt) {
 	if s.Tok != token.ASSIGN && !define {
 		c.fail(s, "assignment operator %s", s.Tok)
 	}
+	if define && len(s.Rhs) == 1 && len(s.Lhs) == 1 && c.t.isClockRead(s.Rhs[0]) {
+		// seed := time.Now().UTC().UnixNano(): reading the clock changes nothing; the value may only seed a generator
+		id, _ := s.Lhs[0].(*ast.Ident)
+		v, _ := c.t.info.Defs[id].(*types.Var)
+		if id == nil || v == nil || c.loop != nil {
+			c.fail(s, "clock reading that is not assigned to a new local variable outside any loop")
+		}
+		if c.sh.clock == nil {
+			c.sh.clock = map[*types.Var]bool{}
+		}
+		c.sh.clock[v] = true
+		return
+	}
 	if len(s.Rhs) == 1 && len(s.Lhs) == 1 {
 		// x = append(x, v…): x grows in place.  No second reference to x's array exists in the subset, so
 		// whether Go reallocates is unobservable.
@@ -682,6 +1013,28 @@ func (c *ctx) assign(s *ast.AssignStmt) {
 			}
 			store(cur)
 			return
+		}
+	}
+	if len(s.Rhs) == 1 && len(s.Lhs) == 1 && !define {
+		// x = append(x[:i], x[i+1:]...): element i is removed in place.  Whatever the capacity, Go panics unless
+		// 0 <= i and i+1 <= len(x) (x[i+1:] is checked against the LENGTH), and otherwise the result is x without its
+		// i-th element; no second reference to x's array exists in the subset.
+		if call, ok := ast.Unparen(s.Rhs[0]).(*ast.CallExpr); ok && c.builtin(call.Fun) == "append" && call.Ellipsis.IsValid() && len(call.Args) == 2 {
+			a0, ok0 := ast.Unparen(call.Args[0]).(*ast.SliceExpr)
+			a1, ok1 := ast.Unparen(call.Args[1]).(*ast.SliceExpr)
+			if ok0 && ok1 && !a0.Slice3 && !a1.Slice3 && a0.Low == nil && a0.High != nil && a1.Low != nil && a1.High == nil &&
+				c.sameExpr(s.Lhs[0], a0.X) && c.sameExpr(s.Lhs[0], a1.X) && c.isPlusOne(a1.Low, a0.High) {
+				if c.t.mentionsMutRec(c.typeOf(s.Lhs[0])) {
+					c.fail(s, "removal from a slice of pointers to mutable records")
+				}
+				store := c.placeOf(s.Lhs[0], false, true)
+				x := c.expr(s.Lhs[0])
+				i := c.expr(a0.High)
+				t1 := c.hoist("Go.slice %s 0 %s", paren(x), paren(i))
+				t2 := c.hoist("Go.slice %s (%s + 1) (%s.size : Int)", paren(x), i, paren(x))
+				store("(" + t1 + " ++ " + t2 + ")")
+				return
+			}
 		}
 	}
 	if len(s.Rhs) == 1 {
@@ -702,7 +1055,11 @@ func (c *ctx) assign(s *ast.AssignStmt) {
 	}
 	vals := make([]string, len(s.Rhs))
 	for i, r := range s.Rhs {
+		if id, isId := s.Lhs[i].(*ast.Ident); isId && define && c.t.info.Defs[id] != nil {
+			c.brw = true
+		}
 		vals[i] = c.valueAs(r, false, c.lhsType(s.Lhs[i]))
+		c.brw = false
 		if len(s.Rhs) > 1 && !isTmpName(vals[i]) { // simultaneous assignment: freeze the value
 			tmp := c.fresh()
 			c.w.emit("let %s : %s := %s", tmp, c.t.leanType(c.typeOf(r), r), vals[i])
@@ -715,7 +1072,7 @@ func (c *ctx) assign(s *ast.AssignStmt) {
 }
 
 func (c *ctx) opAssign(lhs ast.Expr, op token.Token, rhs ast.Expr, at ast.Node) {
-	if !isInt(c.typeOf(lhs)) {
+	if !isInt(c.typeOf(lhs)) && !(isUnsigned(c.typeOf(lhs)) && (op == token.ADD || op == token.SUB || op == token.MUL)) {
 		c.fail(at, "operator assignment on %s", c.typeOf(lhs))
 	}
 	// Go evaluates the operands of lhs once; we evaluate them for the store and again (same pure terms)
@@ -754,7 +1111,11 @@ func (c *ctx) callStmt(call *ast.CallExpr, g *fn, lhs []ast.Expr, define bool) {
 	}
 	for i, p := range g.params {
 		if g.mutParam[p] {
-			outs = append(outs, call.Args[i])
+			if p == c.t.grand {
+				outs = append(outs, c.t.grandId)
+			} else {
+				outs = append(outs, call.Args[i])
+			}
 		}
 	}
 	nmut := len(outs)
@@ -902,8 +1263,11 @@ func (c *ctx) stmt(s ast.Stmt) bool {
 		}
 	case *ast.DeclStmt:
 		gd, ok := x.Decl.(*ast.GenDecl)
+		if ok && gd.Tok == token.CONST {
+			return false // a local constant is folded into its uses (constTerm)
+		}
 		if !ok || gd.Tok != token.VAR {
-			c.fail(s, "declaration other than var")
+			c.fail(s, "declaration other than var or const")
 		}
 		for _, sp := range gd.Specs {
 			vs := sp.(*ast.ValueSpec)
@@ -991,6 +1355,7 @@ func (c *ctx) stmt(s ast.Stmt) bool {
 		return true
 	case *ast.ForStmt:
 		c.loopStmt(x, x.Init, x.Cond, x.Post, x.Body)
+		return x.Cond == nil && !hasBreak(x.Body) // `for { … }` without break: control never falls out of it
 	case *ast.RangeStmt:
 		c.loopStmt(x, nil, nil, nil, x.Body)
 	default:
@@ -1129,6 +1494,9 @@ func (c *ctx) loopVars(loop ast.Stmt, parts []ast.Node) (state, captured []*type
 	}
 	byPos(state)
 	byPos(captured)
+	if c.t.grand != nil && assigned[c.t.grand] { // the package-level generator (no identifier in the source mentions it)
+		state = append(state, c.t.grand)
+	}
 	for _, vs := range [][]*types.Var{state, captured} {
 		for i, v := range vs {
 			for _, w := range vs[:i] {
@@ -1139,6 +1507,65 @@ func (c *ctx) loopVars(loop ast.Stmt, parts []ast.Node) (state, captured []*type
 		}
 	}
 	return
+}
+
+// isNumeral: a term made of integer literals and arithmetic only (no variable gives it the type Int)
+func isNumeral(s string) bool {
+	digits := false
+	for _, c := range s {
+		switch {
+		case c >= '0' && c <= '9':
+			digits = true
+		case strings.ContainsRune("()+-* ", c):
+		default:
+			return false
+		}
+	}
+	return digits
+}
+
+// callsSelf: the statement contains a call of the function being translated.
+func (c *ctx) callsSelf(n ast.Node) bool {
+	found := false
+	ast.Inspect(n, func(n ast.Node) bool {
+		if call, ok := n.(*ast.CallExpr); ok && c.t.callee(call) == c.f {
+			found = true
+		}
+		return !found
+	})
+	return found
+}
+
+// recType: the type of the function applied to its type arguments and its fuel — what a loop containing a recursive
+// call receives as rec_.
+func (g *fn) recType(t *translator) string {
+	var parts []string
+	all := g.params
+	if g.recv != nil {
+		all = append([]*types.Var{g.recv}, g.params...)
+	}
+	for _, p := range all {
+		parts = append(parts, paren(t.leanType(p.Type(), g.decl)))
+	}
+	return strings.Join(append(parts, "Outcome "+paren(g.resultType(t))), " → ")
+}
+
+// hasBreak: the loop body contains a break that leaves THIS loop (breaks of nested loops do not count; break inside
+// a switch is refused elsewhere).
+func hasBreak(body *ast.BlockStmt) bool {
+	found := false
+	ast.Inspect(body, func(n ast.Node) bool {
+		switch x := n.(type) {
+		case *ast.ForStmt, *ast.RangeStmt, *ast.FuncLit:
+			return false
+		case *ast.BranchStmt:
+			if x.Tok == token.BREAK {
+				found = true
+			}
+		}
+		return !found
+	})
+	return found
 }
 
 func hasReturn(n ast.Node) bool {
@@ -1189,6 +1616,8 @@ func (c *ctx) loopStmt(loop ast.Stmt, init ast.Stmt, cond ast.Expr, post ast.Stm
 				headVars = append(headVars, v)
 				headVals = append(headVals, c.value(in.Rhs[i], false))
 			}
+		case *ast.IncDecStmt, *ast.ExprStmt:
+			c.stmt(in) // `for i++; …`: an ordinary statement before the loop
 		default:
 			c.fail(init, "loop initialiser %T", init)
 		}
@@ -1223,6 +1652,10 @@ func (c *ctx) loopStmt(loop ast.Stmt, init ast.Stmt, cond ast.Expr, post ast.Stm
 	if c.f.fuel {
 		head += "(fuel : Nat) "
 	}
+	needsRec := c.f.recursive && c.callsSelf(loop)
+	if needsRec {
+		head += "(rec_ : " + c.f.recType(t) + ") "
+	}
 	for _, v := range captured {
 		head += fmt.Sprintf("(%s : %s) ", varName(v), t.leanType(v.Type(), loop))
 	}
@@ -1253,6 +1686,9 @@ func (c *ctx) loopStmt(loop ast.Stmt, init ast.Stmt, cond ast.Expr, post ast.Stm
 	self := name + c.f.typeArgsSelf()
 	if c.f.fuel {
 		self += " fuel"
+	}
+	if needsRec {
+		self += " rec_"
 	}
 	for _, v := range captured {
 		self += " " + varName(v)
@@ -1301,6 +1737,13 @@ func (c *ctx) loopStmt(loop ast.Stmt, init ast.Stmt, cond ast.Expr, post ast.Stm
 	if c.f.fuel {
 		call += " fuel"
 	}
+	if needsRec {
+		if c.loop != nil {
+			call += " rec_"
+		} else {
+			call += " (" + c.f.name + c.f.typeArgsSelf() + " fuel)"
+		}
+	}
 	for _, v := range captured {
 		call += " " + varName(v)
 	}
@@ -1319,6 +1762,9 @@ func (c *ctx) loopStmt(loop ast.Stmt, init ast.Stmt, cond ast.Expr, post ast.Stm
 		if cl.incl {
 			count = "(" + hi + " + 1 - " + lo + ")"
 		}
+		if isNumeral(lo) && isNumeral(hi) { // two literals would be elaborated as natural numbers
+			count = "(" + count[1:len(count)-1] + " : Int)"
+		}
 		call += " " + count + ".toNat " + paren(map[bool]string{false: lo, true: hi}[cl.down])
 	}
 	for _, v := range headVals {
@@ -1328,6 +1774,18 @@ func (c *ctx) loopStmt(loop ast.Stmt, init ast.Stmt, cond ast.Expr, post ast.Stm
 		call += " " + varName(v)
 	}
 	switch {
+	case cl == nil && cond == nil && !hasBreak(body):
+		// a loop without a condition and without break ends only by `return` (or never): after it nothing is reachable
+		if !ret {
+			c.fail(loop, "loop without condition, break or return")
+		}
+		c.w.emit("match ← %s with", call)
+		if c.loop != nil {
+			c.w.emit("| .ret r_ => return (.ret r_)")
+		} else {
+			c.w.emit("| .ret r_ => return r_")
+		}
+		c.w.emit("| .next _ => Outcome.diverge")
 	case ret:
 		c.w.emit("match ← %s with", call)
 		if c.loop != nil {
@@ -1381,8 +1839,19 @@ func (g *fn) resultTypes(t *translator) []string {
 					if r, ok := n.(*ast.ReturnStmt); ok && i < len(r.Results) {
 						rt := t.info.Types[r.Results[i]].Type
 						u, isAddr := ast.Unparen(r.Results[i]).(*ast.UnaryExpr)
-						if !isAddr || u.Op != token.AND || t.ownStruct(rt) == nil || (found != nil && !types.Identical(found, rt)) {
-							t.fail(r, "interface-typed result that is not `&S{…}` of one struct type S")
+						fresh := isAddr && u.Op == token.AND
+						if id, isId := ast.Unparen(r.Results[i]).(*ast.Ident); isId {
+							// a LOCAL variable of type *S (it can only hold a fresh `&S{…}` or the result of a constructor)
+							if v := t.varOf(id); v != nil && v.Parent() != t.pkg.Scope() && v != g.recv {
+								isP := false
+								for _, p := range g.params {
+									isP = isP || p == v
+								}
+								fresh = !isP
+							}
+						}
+						if !fresh || t.ownStruct(rt) == nil || (found != nil && !types.Identical(found, rt)) {
+							t.fail(r, "interface-typed result that is not `&S{…}` (or a local variable holding one) of one struct type S")
 						}
 						found = rt
 					}
@@ -1413,6 +1882,28 @@ func (g *fn) resultType(t *translator) string {
 	return prodType(append(parts, g.resultTypes(t)...))
 }
 
+// isConstructor: a plain function whose results are fresh (`&S{…}` of an own struct, or declared as an interface
+// and resolved by resultTypes to such a literal): handing out the only reference to what it built.
+func isConstructor(g *fn, t *translator) bool {
+	ok := true
+	ast.Inspect(g.decl.Body, func(n ast.Node) bool {
+		if r, isRet := n.(*ast.ReturnStmt); isRet {
+			for _, e := range r.Results {
+				if t.mentionsMutRec(t.info.Types[e].Type) {
+					u, isAddr := ast.Unparen(e).(*ast.UnaryExpr)
+					if !isAddr || u.Op != token.AND {
+						ok = false
+					} else if _, isLit := ast.Unparen(u.X).(*ast.CompositeLit); !isLit {
+						ok = false
+					}
+				}
+			}
+		}
+		return true
+	})
+	return ok
+}
+
 func (t *translator) emitFn(g *fn) string {
 	curNaming = newNaming(g.decl)
 	var sigText bytes.Buffer
@@ -1420,6 +1911,9 @@ func (t *translator) emitFn(g *fn) string {
 	head := "def " + g.name + " " + g.typeBinders()
 	if g.fuel {
 		head += "(fuel : Nat) "
+	}
+	if g.rng {
+		head += "(rand_ : Nat → Int) "
 	}
 	all := g.params
 	if g.recv != nil {
@@ -1429,10 +1923,20 @@ func (t *translator) emitFn(g *fn) string {
 		if p.Name() == "" || p.Name() == "_" {
 			t.fail(g.decl, "unnamed parameter")
 		}
-		if _, isPtr := types.Unalias(p.Type()).(*types.Pointer); isPtr && p != g.recv {
+		if _, isPtr := types.Unalias(p.Type()).(*types.Pointer); isPtr && p != g.recv && !isRand(p.Type()) {
 			t.fail(g.decl, "pointer parameter %s", p.Name())
 		}
+		if p != g.recv && t.mentionsMutRec(p.Type()) {
+			t.fail(g.decl, "parameter %s contains pointers to mutable records", p.Name())
+		}
 		head += fmt.Sprintf("(%s : %s) ", varName(p), t.leanType(p.Type(), g.decl))
+	}
+	if rs := g.obj.Type().(*types.Signature).Results(); g.recv != nil || !isConstructor(g, t) {
+		for i := 0; i < rs.Len(); i++ {
+			if t.mentionsMutRec(rs.At(i).Type()) {
+				t.fail(g.decl, "result %d of %s contains pointers to mutable records", i, g.name)
+			}
+		}
 	}
 	res := g.resultType(t)
 	sh := &shared{}
